@@ -808,3 +808,25 @@ def x86_64_pgt_pages(mapping, table_pfns, ps=4096):
         t = child(child(child(root, i4), i3), i2)
         tables[t][i1] = (pfn << 12) | 0x63
     return root, {p: struct.pack("<512Q", *t) for p, t in tables.items()}
+
+# ---- appended for C05
+
+
+def write_elf_sparse(path, segs, ps=4096):
+    """ELF64 little-endian x86_64 core with page-aligned PT_LOAD segments at explicit file
+    offsets (C05: data beyond the first 4 MiB mmap window of the file cache).
+    segs: list of dicts(pfn=, npages=, offset=<page-aligned file offset>)."""
+    ehsz, phsz = 64, 56
+    ph = b""
+    for s_ in segs:
+        pa = s_["pfn"] * ps
+        sz = s_["npages"] * ps
+        ph += struct.pack("<IIQQQQQQ", 1, 7, s_["offset"], pa, pa, sz, sz, ps)
+    ident = b"\x7fELF" + bytes([2, 1, 1, 0]) + b"\0" * 8
+    eh = ident + struct.pack("<HHIQQQIHHHHHH", 4, EM["x86_64"], 1, 0, ehsz, 0, 0, ehsz, phsz, len(segs), 0, 0, 0)
+    with open(path, "wb") as f:
+        f.write(eh + ph)
+        for s_ in segs:
+            f.seek(s_["offset"])
+            for i in range(s_["npages"]):
+                f.write(page_bytes(s_["pfn"] + i, ps))
